@@ -33,17 +33,42 @@ func listsOver(n int, maxLen int) [][]int {
 
 // c17List materialises an abstract list (indices into the universe, filler
 // counted separately) as a Go value of the element type.
+// universes: elements of very different shape (1, 64 and 70 bytes; 1 and the
+// int64 extremes) so that any pre-filter on length / magnitude is exercised
+var (
+	c17StrU = []string{"a", strings.Repeat("b", 64), strings.Repeat("c", 70)}
+	c17IntU = []int64{1, -9223372036854775808, 9223372036854775807}
+)
+
+func c17FillS(i int) string {
+	s := fmt.Sprintf("f%d", i)
+	switch i % 4 {
+	case 1:
+		s += strings.Repeat("_", 64-len(s)) // exactly 64 bytes
+	case 2:
+		s += strings.Repeat("é", 40)
+	}
+	return s
+}
+
+func c17FillI(i int) int64 {
+	if i%2 == 1 {
+		return -int64(1000 + i)
+	}
+	return int64(1000+i) << uint(i%3*20)
+}
+
 func c17List(idx []int, strs bool, padFront, padBack int, fillBase int) interface{} {
 	if strs {
 		var l []string
 		for i := 0; i < padFront; i++ {
-			l = append(l, fmt.Sprintf("f%d", fillBase+i))
+			l = append(l, c17FillS(fillBase+i))
 		}
 		for _, e := range idx {
-			l = append(l, []string{"a", "b", "c"}[e])
+			l = append(l, c17StrU[e])
 		}
 		for i := 0; i < padBack; i++ {
-			l = append(l, fmt.Sprintf("f%d", fillBase+padFront+i))
+			l = append(l, c17FillS(fillBase+padFront+i))
 		}
 		if l == nil {
 			l = []string{}
@@ -52,13 +77,13 @@ func c17List(idx []int, strs bool, padFront, padBack int, fillBase int) interfac
 	}
 	var l []int64
 	for i := 0; i < padFront; i++ {
-		l = append(l, int64(1000+fillBase+i))
+		l = append(l, c17FillI(fillBase+i))
 	}
 	for _, e := range idx {
-		l = append(l, int64(e+1))
+		l = append(l, c17IntU[e])
 	}
 	for i := 0; i < padBack; i++ {
-		l = append(l, int64(1000+fillBase+padFront+i))
+		l = append(l, c17FillI(fillBase+padFront+i))
 	}
 	if l == nil {
 		l = []int64{}
@@ -127,7 +152,7 @@ func c17(r *rep.Run) {
 		r.SetBudget(1800e9)
 	}
 	r.Rule = "every pair of lists of length <= 3 over a 3-element universe (all duplicates/orders) for int64 and for string elements; each pair unpadded and padded with disjoint filler (front / back / both sides of the core) to every total length in the list around the 100-element switch, with the left and with the right list the longer one; each operand passed as a literal and as a variable (4 forms), optimisations on and off; typed-empty lists of both element types and the empty literal in either position; every element-type mismatch. `in`: every probe (universe elements, a filler element, an absent value, wrong-typed probes) against every such list passed as literal, variable and pre-built set. Oracle: map-based set intersection/membership; overlap(A,B) == overlap(B,A); mismatches are errors. non-trivial = evaluations whose two lists total >= 100 elements"
-	r.Assume = []string{"universe of 3 elements + disjoint filler: the operators only compare elements for equality, so element identity beyond equal/different is irrelevant"}
+	r.Assume = []string{"universe of 3 elements of very different shape (1/64/70-byte strings; 1, min, max) + disjoint filler of mixed lengths, magnitudes and signs; other element values are not explored"}
 	r.Cov["total_lengths"] = totals
 	lists := listsOver(3, maxLen)
 	type job struct {
@@ -203,9 +228,9 @@ func c17(r *rep.Run) {
 		// in: every probe against list A (unpadded and padded variants of A)
 		var probes []interface{}
 		if j.strs {
-			probes = []interface{}{"a", "b", "c", "f3", "zz", int64(1)}
+			probes = []interface{}{c17StrU[0], c17StrU[1], c17StrU[2], c17FillS(1), c17FillS(3), "zz", strings.Repeat("b", 63), int64(1)}
 		} else {
-			probes = []interface{}{int64(1), int64(2), int64(3), int64(1003), int64(0), "a"}
+			probes = []interface{}{c17IntU[0], c17IntU[1], c17IntU[2], c17FillI(1), c17FillI(2), int64(0), "a"}
 		}
 		if len(j.b) == 0 { // once per list A
 			for _, pad := range []int{0, 97, 150} {
